@@ -1,0 +1,119 @@
+//go:build verif
+
+// Verification hooks (build tag "verif"). Add-only: thin exported wrappers around the
+// unexported discovery and source-user cache internals, used by the external verification
+// harness (C07). Nothing here is compiled into a normal build.
+
+package serveruser
+
+// VerifConstsC07 exports the source-user cache geometry and lifetime.
+func VerifConstsC07() map[string]int64 {
+	return map[string]int64{
+		"sourceUserCacheBucketCount": sourceUserCacheBucketCount,
+		"sourceUserCacheWays":        sourceUserCacheWays,
+		"sourceUserCacheUsers":       sourceUserCacheUsers,
+		"sourceUserCacheLifeSeconds": sourceUserCacheLifeSeconds,
+	}
+}
+
+// VerifSetCacheTick replaces the tick source of the CURRENT generation's source cache.
+// It must be called again after every SetUsers. Not safe for concurrent use.
+func VerifSetCacheTick(r *Registry, tick func() uint32) bool {
+	st := r.users.Load()
+	if st == nil || st.cache == nil {
+		return false
+	}
+	st.cache.tick = tick
+	return true
+}
+
+// VerifUserNames returns the user names of the current generation in id order (id = index + 1).
+func VerifUserNames(r *Registry) []string {
+	st := r.users.Load()
+	if st == nil {
+		return nil
+	}
+	names := make([]string, len(st.users))
+	for i := range st.users {
+		names[i] = st.users[i].name
+	}
+	return names
+}
+
+// VerifSourceKey exposes the cache key of a Source.
+func VerifSourceKey(s Source) ([16]byte, bool) { return s.key, s.valid }
+
+// VerifBucketIndex exposes the bucket a Source's key maps to in this process.
+func VerifBucketIndex(s Source) uint32 { return sourceUserCacheBucketIndex(s.key) }
+
+// VerifCacheLookup calls lookup on the current generation's cache.
+func VerifCacheLookup(r *Registry, s Source) []uint32 {
+	st := r.users.Load()
+	if st == nil || st.cache == nil || !s.valid {
+		return nil
+	}
+	ids, n := st.cache.lookup(s.key)
+	return append([]uint32(nil), ids[:n]...)
+}
+
+// VerifCacheRecord calls recordAuthenticated on the current generation's cache.
+func VerifCacheRecord(r *Registry, s Source, userID uint32) {
+	st := r.users.Load()
+	if st == nil || st.cache == nil || !s.valid {
+		return
+	}
+	st.cache.recordAuthenticated(s.key, userID)
+}
+
+// VerifSelectWay calls selectSourceUserCacheWay; lastActive[i] < 0 denotes an empty way.
+func VerifSelectWay(lastActive [sourceUserCacheWays]int64, now uint32) int {
+	var ways [sourceUserCacheWays]*sourceUserCacheEntry
+	for i, t := range lastActive {
+		if t >= 0 {
+			e := &sourceUserCacheEntry{}
+			e.lastActive.Store(uint32(t))
+			ways[i] = e
+		}
+	}
+	return selectSourceUserCacheWay(ways, now).way
+}
+
+// VerifAge calls sourceUserCacheAge / sourceUserCacheExpired.
+func VerifAge(now, then uint32) (uint32, bool) {
+	return sourceUserCacheAge(now, then), sourceUserCacheExpired(now, then)
+}
+
+// VerifDiscovery is the exported view of a discoveryResult.
+type VerifDiscovery struct {
+	UserName          string
+	UserID            uint32
+	Origin            int // 1 cached hint, 2 registry hint, 3 cached fallback, 4 registry fallback
+	Attempts          int
+	GenerationCurrent bool // the result's generation is the published one right after discovery
+	Auth              Authentication
+}
+
+// VerifDiscover calls discoverUser with an optional afterAttempt seam.
+func VerifDiscover(r *Registry, encryptedMetadata []byte, source Source, requireCurrent bool, afterAttempt func()) (VerifDiscovery, error) {
+	var seam func(*state)
+	if afterAttempt != nil {
+		seam = func(*state) { afterAttempt() }
+	}
+	result, err := discoverUser(&r.users, &r.hintMandatory, encryptedMetadata, source, requireCurrent, seam)
+	if err != nil {
+		return VerifDiscovery{}, err
+	}
+	return VerifDiscovery{
+		UserName:          result.userContext.UserName,
+		UserID:            result.userID,
+		Origin:            int(result.origin),
+		Attempts:          result.attempts,
+		GenerationCurrent: r.users.Load() == result.generation,
+		Auth:              result.authentication(source),
+	}, nil
+}
+
+// VerifAuthInfo exposes the fields of an Authentication.
+func VerifAuthInfo(a Authentication) (userID uint32, origin int, pending bool) {
+	return a.userID, int(a.origin), a.generation != nil
+}
